@@ -194,7 +194,7 @@ Definition lookup (s : string) : value :=
   else if String.eqb s "Q" || String.eqb s "QFactor" then VQ None
   else if String.eqb s "One" then VOneC
   else if String.eqb s "Zero" then VZeroC
-  else match find_index s alphabet 0 with
+  else match find_index s (firstn 24 alphabet) 0 with
        | Some i => VVar (V i)
        | None => VErr NameError
        end.
